@@ -99,7 +99,10 @@ func VerifC19Pack() {
 	case 1:
 		opts.ManifestAnnotations = map[string]string{ocispec.AnnotationCreated: "2000-01-01T00:00:00Z", "k": verifrt.StringOver("xy", 0, 1)}
 	case 2:
-		opts.ManifestAnnotations = map[string]string{ocispec.AnnotationCreated: "not-a-time"}
+		// malformed created times: arbitrary text, the empty string (present but empty is not
+		// "absent"), a date without time, an RFC 3339 time without zone
+		bad := []string{"not-a-time", "", "2000-01-01", "2000-01-01T00:00:00"}
+		opts.ManifestAnnotations = map[string]string{ocispec.AnnotationCreated: bad[verifrt.Choice(len(bad))]}
 	}
 	nBefore := len(target.pushes)
 	desc, err := PackManifest(ctx, target, version, artifactType, opts)
